@@ -3,6 +3,7 @@
 package geom
 
 func init() {
+	vfHarnesses["C14_collection_grouping"] = vfhC14CollectionGrouping
 	vfHarnesses["C14_centroid_weights"] = vfhC14CentroidWeights
 }
 
@@ -43,5 +44,36 @@ func vfhC14CentroidWeights() {
 	rev, ok := poly.Reverse().Centroid().XY()
 	wantRev := weightedCentroid(shell.Reverse(), 48, total).Add(weightedCentroid(hole.Reverse(), -ah, total))
 	vfAssert(ok && vfAnd(rev.X == wantRev.X, rev.Y == wantRev.Y), "the reversed polygon uses the same weights")
+	vfReach("end")
+}
+
+// Collection centroids do not depend on how the lineal / puntal members are
+// grouped: GC(MULTILINESTRING(a,b)), GC(a,b) and GC(GC(a),MULTILINESTRING(b))
+// weigh each line by its own length (the library's rounded operations compared
+// term against term), and the same for points in a MultiPoint.
+func vfhC14CollectionGrouping() {
+	a0, a1, b0, b1 := vfPt("a0"), vfPt("a1"), vfPt("b0"), vfPt("b1")
+	vfAssume(!vfEqXY(a0, a1))
+	vfAssume(!vfEqXY(b0, b1))
+	la, lb := vfLineXY(a0, a1), vfLineXY(b0, b1)
+	flat := NewGeometryCollection([]Geometry{la.AsGeometry(), lb.AsGeometry()})
+	grouped := NewGeometryCollection([]Geometry{NewMultiLineString([]LineString{la, lb}).AsGeometry()})
+	mixed := NewGeometryCollection([]Geometry{
+		NewGeometryCollection([]Geometry{la.AsGeometry()}).AsGeometry(),
+		NewMultiLineString([]LineString{lb}).AsGeometry(),
+		vfPointXY(a0).AsGeometry(), // lower-dimensional members do not count
+	})
+	want, ok := flat.Centroid().XY()
+	vfAssert(ok, "non-empty")
+	for _, g := range []GeometryCollection{grouped, mixed} {
+		got, ok := g.Centroid().XY()
+		vfAssert(ok && vfAnd(got.X == want.X, got.Y == want.Y), "the centroid of lines does not depend on their grouping into MultiLineStrings or nested collections")
+	}
+	vfAssert(flat.Length() == grouped.Length() && flat.Length() == mixed.Length(), "Length is additive over members whatever the grouping")
+	pf := NewGeometryCollection([]Geometry{vfPointXY(a0).AsGeometry(), vfPointXY(a1).AsGeometry(), vfPointXY(b0).AsGeometry()})
+	pg := NewGeometryCollection([]Geometry{NewMultiPoint([]Point{vfPointXY(a0), vfPointXY(a1)}).AsGeometry(), vfPointXY(b0).AsGeometry()})
+	cf, ok1 := pf.Centroid().XY()
+	cg, ok2 := pg.Centroid().XY()
+	vfAssert(ok1 && ok2 && vfAnd(cf.X == cg.X, cf.Y == cg.Y), "the centroid of points does not depend on their grouping into MultiPoints")
 	vfReach("end")
 }
